@@ -345,6 +345,8 @@ class Ctx:
                 res['status'] = 'no_verdict' if (r['timeout'] or oom) else 'broken'
                 res['why'] = 'reachability (cover) twin gave no result: %s' % ('timeout' if r['timeout'] else 'out of memory' if oom else (pc['error'] or r['err'][-300:] or r['out'][-300:]))
                 return res
+            if 'ran out of memory' in r['out']:      # the SAT back end gave up inside the cover run: cbmc then lists every goal as not covered - that is no verdict, not vacuity
+                res['status'] = 'no_verdict'; res['why'] = 'reachability (cover) twin gave no result: SAT checker ran out of memory'; return res
             goals = [g for g in pc['goals'] if g['file'] and not g['file'].startswith('<')]
             unreached = [g for g in goals if g['status'] != 'satisfied']
             res['reach_goals'] = len(goals); res['reached'] = len(goals) - len(unreached)
